@@ -39,6 +39,8 @@ import (
 	"github.com/safing/jess/filesig"
 	"github.com/safing/jess/lhash"
 	"github.com/safing/jess/tools"
+	"github.com/safing/portbase/database/query"
+	"github.com/safing/portbase/database/storage/fstree"
 	"github.com/safing/portbase/updater"
 
 	"verif/vlib"
@@ -98,6 +100,8 @@ type env struct {
 	seq      int64
 	pmu      sync.Mutex
 	pending  []pendingViolation
+	// probeNotes: examples of fstree queries that fail after a fault (informational)
+	probeNotes []string
 }
 
 // RunResult is one driver run.
@@ -137,7 +141,7 @@ func (e *env) runOnce(sc Scenario, f Fault, when int) (res *RunResult, err error
 	if sc.overlap() != "" {
 		sp.Writer = "A"
 	}
-	if sc.Tmp == "other" {
+	if sc.Tmp == "other" || sc.Tmp == "explicit-other" {
 		sp.Other = filepath.Join(e.other, fmt.Sprintf("o%d", n))
 		if err := os.Mkdir(sp.Other, 0o755); err != nil {
 			return res, err
@@ -340,6 +344,9 @@ func (e *env) traceScenario(sc Scenario, verbose bool) (*scenarioResult, *RunRes
 		if m == "" {
 			family, m = "damaged-archive", sc.damage()
 		}
+		if m == "" {
+			family, m = "temp-dir-on-other-mount", sc.Tmp
+		}
 		if opOK {
 			cls += "/op-ok"
 		} else {
@@ -402,6 +409,7 @@ func (e *env) runPoint(fp FaultPoint, verbose bool) string {
 			}
 		}
 		e.report(sc, fp.Fault, fp.Norm, v, extra, r)
+		e.fstreeProbe(sc, fp, r, v)
 		cls := v.class()
 		if fp.Fault.Kind == "error" {
 			if strings.HasPrefix(r.Result, "err") {
@@ -530,7 +538,7 @@ var srvModes = []string{
 // interrupted-download scenarios are decided by their complete run; quick
 // combines only three of them with crash points.
 func (e *env) wantPoints(sc Scenario) bool {
-	if !sc.mayFail() || !e.c.Quick() {
+	if !sc.mayFail() || !e.c.Quick() || sc.Tmp == "explicit-other" {
 		return true
 	}
 	if sc.New != "small" || sc.has("signed") {
@@ -549,7 +557,7 @@ func buildScenarios(c *vlib.Ctx, haveOther bool) []Scenario {
 	q := c.Quick()
 	var out []Scenario
 	add := func(op, old, nw, tmp, v string) {
-		if tmp == "other" && !haveOther {
+		if (tmp == "other" || tmp == "explicit-other") && !haveOther {
 			return
 		}
 		out = append(out, Scenario{op, old, nw, tmp, v})
@@ -582,6 +590,17 @@ func buildScenarios(c *vlib.Ctx, haveOther bool) []Scenario {
 					add(op, o, n, "other", "")
 					add(op, o, n, "same", "mode0640")
 				}
+			}
+		}
+	}
+	// explicitly configured temp dir on another file system: the rename cannot work (EXDEV)
+	for _, op := range []string{opCreate, opCopy, opReplace} {
+		for _, o := range []string{"small", "absent", "mode"} {
+			for _, n := range []string{"small", "large"} {
+				if q && (o == "mode" || (n == "large" && (o == "absent" || op != opCreate))) {
+					continue
+				}
+				add(op, o, n, "explicit-other", "")
 			}
 		}
 	}
@@ -811,6 +830,11 @@ func run(c *vlib.Ctx) {
 	})
 	c.Add(int64(len(states)), 0, 0)
 	// drop the per-state helper keys again (they were only used for counting)
+	sort.Strings(e.probeNotes)
+	if len(e.probeNotes) > 6 {
+		e.probeNotes = e.probeNotes[:6]
+	}
+	c.Extra("fstree_query_after_fault_examples", e.probeNotes)
 	c.Extra("fault_points", len(points))
 	c.Extra("scenarios_run", len(scs))
 	// vacuity: a publishing scenario must have shown both the old and the new state
@@ -1066,5 +1090,62 @@ func statusAnswer(out *bytes.Buffer, mode, path string, data []byte) {
 		page := []byte(fmt.Sprintf("<html><body><h1>%d %s</h1></body></html>\n", code, http.StatusText(code)))
 		head("", len(page))
 		out.Write(page)
+	}
+}
+
+// fstreeProbe: is the database still usable after the fault? A query over the
+// whole database directory should return exactly the keys whose record file
+// exists, without error. This is NOT part of the property's oracle (the
+// statement is about the files); the result is recorded as an outcome only.
+func (e *env) fstreeProbe(sc Scenario, fp FaultPoint, r *RunResult, v *Verdict) {
+	if sc.Op != opPut || sc.overlap() != "" || sc.Old == "empty" {
+		return
+	}
+	l := layout(r.Spec)
+	db, err := fstree.NewFSTree("c17", l.Dst)
+	if err != nil {
+		e.c.Outcome("fstree-query-after-fault:cannot-open")
+		return
+	}
+	q, err := query.New("c17:").Check()
+	if err != nil {
+		e.c.Outcome("fstree-query-after-fault:bad-query")
+		return
+	}
+	it, err := db.Query(q, true, true)
+	if err != nil {
+		e.c.Outcome("fstree-query-after-fault:query-refused")
+		return
+	}
+	var keys []string
+	for rec := range it.Next {
+		keys = append(keys, rec.DatabaseKey())
+	}
+	want := []string{}
+	if r.After[l.Dest] != nil {
+		want = append(want, l.Key)
+	}
+	where := "tmpdir-usable"
+	if sc.Tmp == "other" || sc.Tmp == "missing" {
+		where = "tmpdir-on-other-mount"
+	}
+	res := "ok"
+	switch {
+	case it.Err() != nil:
+		res = "query-error"
+	case strings.Join(keys, ",") != strings.Join(want, ","):
+		res = "phantom-key"
+	}
+	e.c.Outcome("fstree-query-after-fault:" + fp.Fault.Kind + ":" + where + ":" + res)
+	if res != "ok" {
+		e.pmu.Lock()
+		if len(e.probeNotes) < 4000 {
+			errText := ""
+			if it.Err() != nil {
+				errText = longDigitsRe.ReplaceAllString(strings.ReplaceAll(it.Err().Error(), r.Spec.Root, "$R"), "#")
+			}
+			e.probeNotes = append(e.probeNotes, fmt.Sprintf("%s %s [%s]: keys=%v err=%s (%s)", sc.Name(), fp.Fault, fp.Norm, keys, errText, v.class()))
+		}
+		e.pmu.Unlock()
 	}
 }
